@@ -583,3 +583,10 @@ def path_feasible(f, path):
         if var not in str(outcome).split("|"):
             return False
     return True
+
+
+def cli_value_cond(cond, name):
+    """outcome asserted about the command-line value `name` by a condition text, or None: the value is the function's parameter of that name, or the
+    field of that name of a parameter struct the caller filled from the parsed arguments (`options.force`), possibly read with `.take()`"""
+    m = re.fullmatch(r"(?:take\()?arg:(?:\w+\.[\w:<>, ]+\.)?%s\)?=(\w+)" % re.escape(name), cond)
+    return m.group(1) if m else None
